@@ -31,6 +31,7 @@ import (
 	"github.com/goplus/llgo/internal/env"
 	"github.com/goplus/llgo/internal/goembed"
 	"github.com/goplus/llgo/internal/packages"
+	xenv "github.com/goplus/llgo/xtool/env"
 	gopackages "golang.org/x/tools/go/packages"
 )
 
@@ -185,6 +186,11 @@ func (c *context) collectPackageInputs(m *manifestBuilder, pkg *aPackage) error 
 		m.pkg.EmbedFiles = digestEmbedFiles(embedMap)
 	}
 
+	// Environment variables and $(pkg-config ...) commands in the package's
+	// LLGoFiles compile flags and LLGoPackage link specification are expanded
+	// when the package is built: what they expand to now is a build input.
+	m.pkg.ExpandedSpecs = pkgExpandedSpecs(p)
+
 	// Rewrite vars
 	if len(pkg.rewriteVars) > 0 {
 		rewrites := make(map[string]string, len(pkg.rewriteVars))
@@ -198,6 +204,25 @@ func (c *context) collectPackageInputs(m *manifestBuilder, pkg *aPackage) error 
 	// (LINK_ARGS/NEED_RT/NEED_PY_INIT are appended later in saveToCache)
 
 	return nil
+}
+
+// pkgExpandedSpecs returns the current expansion of every LLGoFiles /
+// LLGoPackage constant of the package that refers to the environment.
+func pkgExpandedSpecs(p *packages.Package) []string {
+	if p.Types == nil {
+		return nil
+	}
+	var ret []string
+	for _, name := range []string{"LLGoFiles", "LLGoPackage"} {
+		c, ok := p.Types.Scope().Lookup(name).(*types.Const)
+		if !ok || c.Val().Kind() != constant.String {
+			continue
+		}
+		if spec := constant.StringVal(c.Val()); strings.ContainsRune(spec, '$') {
+			ret = append(ret, name+"="+xenv.ExpandEnv(spec))
+		}
+	}
+	return ret
 }
 
 // pkgLLGoFiles returns the existing source files listed in the package's
